@@ -475,6 +475,11 @@ func (r *runner) compare(qi int, q Query) *hx.Failure {
 		return fmt.Sprintf("query #%d %s\n indexes: %s\n documents: %s", qi, text, strings.Join(idx, "; "), r.dumpModel())
 	}
 	if ra.Panic != "" {
+		emptyIn := false
+		walkLeaves(q.Filter, false, func(l *F, underNot bool) { emptyIn = emptyIn || (l.Cmp == "_in" && len(l.Vals) == 0 && !underNot) })
+		if emptyIn && strings.Contains(ra.Panic, "index out of range") && strings.Contains(ra.Panic, "createIteratorForNextValue") {
+			return hx.Failf(sigInEmptyList, "an empty _in list on a field of the chosen index makes the index iterator read its first value out of range: %s", ctx())
+		}
 		if strings.Contains(ra.Panic, "Unclosed iterator at time of Txn.Discard") && hasIn(q.Filter) && (q.Limit > 0 || hasRelIn(q.Filter)) {
 			return hx.Failf(sigInUnclosed, "an _in condition served from an index and not read to its end (a limit stops early, or a join restarts it) leaves the current index iterator open; the request panics at commit: %s", ctx())
 		}
